@@ -137,7 +137,9 @@ def _xml_damage(xml: bytes, kind: str) -> bytes:
     if kind in _NUMBER_KINDS:
         # container-aware: every decimal attribute value (counts, sizes, indexes) becomes one extreme number
         import re as _re
-        return _re.sub(rb'="\d{1,9}"', b'="' + _NUMBER_KINDS[kind] + b'"', xml)
+        # row numbers of spreadsheet parts (<row r="5">) are left alone: a far row makes the reader build every row in between, which is a listed finding of C12
+        # (dense grid model) and would sit right at C01's CPU budget
+        return _re.sub(rb'(?<! r)="\d{1,9}"', b'="' + _NUMBER_KINDS[kind] + b'"', xml)
     if kind == "text-bomb":
         i = xml.rfind(b"</")
         return xml[:i] + b"Z" * 300000 + xml[i:] if i > 0 else xml
